@@ -24,11 +24,24 @@ MID4 = ["dq", "sq", "bs", "sl", "st", "lp", "rp", "lb", "rc", "sc", "d0", "x", "
 CORE = ["dq", "bs", "sl", "st", "lc", "rc", "rb", "d0", "x", "lf"]
 CORE2 = ["dq", "sq", "bs", "lp", "rp", "lb", "rc", "dot", "d0", "e", "a", "sp"]
 
+# grammar-level alphabets (token symbols of MCLexInput.tla) for the parser
+def _tok(words):
+    return ["t:" + w for w in words.split()]
+
+
+TOK_TOP = _tok('syntax = PROTO3 ; import package option message enum service extend a . { } ( )')
+TOK_BODY = _tok('reserved extensions 1 a STR , to max ; } = [ ] optional map < > oneof group { option ( ) . - default int32')
+TOK_BODY_CORE = _tok('reserved extensions 1 a STR , to max ; } = [ ] - { (')
+TOK_SVC = _tok('rpc a ( ) returns stream . { } ; option = 1 M')
+PRE_MSG, PRE_ENUM, PRE_SVC, PRE_OPT = "msg", "enum", "svc", "opt"      # prefixes defined in MCLexInput.tla
+TOK_EXPR = _tok('a 1 STR - . , : { } [ ] < > ( ) ;')
+
 GEN_CFG = """SPECIFICATION Spec
 CONSTANTS
   MaxLen = %d
   ExportMin = %d
   Alphabet = {%s}
+  PrefixName = "%s"
 INVARIANTS Export
 CHECK_DEADLOCK FALSE
 """
@@ -130,18 +143,23 @@ class Cases:
         return out
 
 
-def _gen_exh(wd, cases, name, alphabet, maxlen, exportmin, simulate=None, workers=4):
+def _q(sym):
+    return '"%s"' % sym
+
+
+def _gen_exh(wd, cases, name, alphabet, maxlen, exportmin, simulate=None, workers=4, prefix=""):
     cfg = "MCLexInput_%s.cfg" % name
     os.makedirs(os.path.join(wd, "gen_" + name), exist_ok=True)
     with open(os.path.join(wd, "gen_" + name, cfg), "w") as fh:
-        fh.write(GEN_CFG % (maxlen, exportmin, ", ".join('"%s"' % a for a in alphabet)))
+        fh.write(GEN_CFG % (maxlen, exportmin, ", ".join(_q(a) for a in alphabet), prefix or "none"))
     sink, box = cases.counting()
     r = _tlc("MCLexInput", cfg, os.path.join(wd, "gen_" + name), workers=1 if simulate else workers, simulate=simulate,
                depth=(maxlen + 1) if simulate else None, tseed=vf.seed() if simulate else None,
                case_sink=sink, timeout=1500, heap="4g")
     if r.violated:
         raise vf.MachineryError("MCLexInput: unexpected violation " + str(r.violated))
-    return {"run": name, "alphabet": len(alphabet), "maxlen": maxlen, "exportmin": exportmin, "simulate": simulate,
+    return {"run": name, "alphabet": len(alphabet), "prefix": prefix or "", "maxlen": maxlen, "exportmin": exportmin,
+            "simulate": simulate,
             "states": r.distinct, "generated": r.generated, "cases": box[0]}
 
 
@@ -313,6 +331,9 @@ def _plan(tier, prop):
             return {
                 "exh": [("full", FULL, 3, 0), ("mid", MID, 4, 4), ("core", CORE, 5, 5), ("core2", CORE2, 5, 5)],
                 "sim": [("sim", FULL, 24, 100), ("simcore", CORE, 16, 200)],
+                "tok": [("toktop", TOK_TOP, 4, 1, ""), ("tokmsg", TOK_BODY, 3, 1, PRE_MSG), ("tokmsg4", TOK_BODY_CORE, 4, 4, PRE_MSG),
+                        ("tokmsg5", TOK_BODY_CORE[:10], 5, 5, PRE_MSG), ("tokenum", TOK_BODY_CORE, 3, 1, PRE_ENUM),
+                        ("toksvc", TOK_SVC, 4, 1, PRE_SVC), ("tokopt", TOK_EXPR, 4, 1, PRE_OPT)],
                 "stride": 29, "depths": [1, 3, 64, 2000],
                 "chunk": 400000, "gen_workers": 3, "gen_parallel": 3, "files_small": 40, "files_large": 2,
             }
@@ -326,6 +347,8 @@ def _plan(tier, prop):
         "exh": [("full", FULL, 2, 0), ("mid", MID4, 3, 3), ("core", CORE, 4, 4)],
         # tlc -simulate checks the export invariant on every successor of the last step: num x |alphabet| cases
         "sim": [("sim", FULL, 16, 30), ("simcore", CORE, 10, 60)],
+        "tok": [("tokmsg", TOK_BODY_CORE, 3, 1, PRE_MSG), ("tokmsg4", TOK_BODY_CORE[:10], 4, 4, PRE_MSG),
+                ("toksvc", TOK_SVC[:10], 3, 1, PRE_SVC)] if prop == "parse" else [],
         "stride": 61 if prop == "parse" else 131,
         "depths": [2, 40],
         "chunk": 120000, "gen_workers": 2, "gen_parallel": 6, "files_small": 6, "files_large": 0,
@@ -391,6 +414,9 @@ def run(pid, tier, replay=None):
             jobs.append(lambda a=(name, alpha, maxlen, exportmin): _gen_exh(wd, cases, *a, workers=plan["gen_workers"]))
         for name, alpha, maxlen, num in plan["sim"]:
             jobs.append(lambda a=(name, alpha, maxlen, maxlen, num): _gen_exh(wd, cases, *a))
+        for name, alpha, maxlen, exportmin, prefix in plan.get("tok", []):
+            jobs.append(lambda a=(name, alpha, maxlen, exportmin), pre=prefix: _gen_exh(
+                wd, cases, *a, workers=plan["gen_workers"], prefix=pre))
         jobs.append(lambda: _gen_mut(wd, binary, cases, files, plan["stride"], plan["depths"], workers=plan["gen_workers"]))
         for res in _parallel(jobs, plan["gen_parallel"]):
             if isinstance(res, tuple):
